@@ -173,36 +173,47 @@ func (r *QueryResponse) ResponseCh() <-chan NodeResponse {
 	return r.respCh
 }
 
-// sendResponse sends a response on the response channel ensuring the channel is not closed.
-func (r *QueryResponse) sendResponse(nr NodeResponse) error {
+// sendResponse sends a response on the response channel ensuring the channel
+// is not closed. The duplicate check is done here, under closeLock, because
+// responses may be handled concurrently; dup reports that this node's response
+// was already delivered.
+func (r *QueryResponse) sendResponse(nr NodeResponse) (dup bool, err error) {
 	r.closeLock.Lock()
 	defer r.closeLock.Unlock()
 	if r.closed {
-		return nil
+		return false, nil
+	}
+	if _, ok := r.responses[nr.From]; ok {
+		return true, nil
 	}
 	select {
 	case r.respCh <- nr:
 		r.responses[nr.From] = struct{}{}
 	default:
-		return errors.New("serf: Failed to deliver query response, dropping")
+		return false, errors.New("serf: Failed to deliver query response, dropping")
 	}
-	return nil
+	return false, nil
 }
 
-// sendResponse sends a response on the response channel ensuring the channel is not closed.
-func (r *QueryResponse) sendAck(nr *messageQueryResponse) error {
+// sendAck sends an ack on the ack channel ensuring the channel is not closed.
+// The duplicate check is done here, under closeLock, because acks may be
+// handled concurrently; dup reports that this node's ack was already delivered.
+func (r *QueryResponse) sendAck(nr *messageQueryResponse) (dup bool, err error) {
 	r.closeLock.Lock()
 	defer r.closeLock.Unlock()
 	if r.closed {
-		return nil
+		return false, nil
+	}
+	if _, ok := r.acks[nr.From]; ok {
+		return true, nil
 	}
 	select {
 	case r.ackCh <- nr.From:
 		r.acks[nr.From] = struct{}{}
 	default:
-		return errors.New("serf: Failed to deliver query response, dropping")
+		return false, errors.New("serf: Failed to deliver query response, dropping")
 	}
-	return nil
+	return false, nil
 }
 
 // NodeResponse is used to represent a single response from a node
